@@ -135,6 +135,9 @@ pub enum Op {
     Max,
     Clear,
     Extend(Vec<u32>),
+    /// `extend` from an iterator that panics after yielding the first j items; the unwind is caught and the
+    /// container keeps being used (cancellation inside a bulk operation)
+    ExtendFaulty(Vec<u32>, u32),
     Index(u32),
     IndexMutWrite(u32),
     Debug,
@@ -173,6 +176,7 @@ fn op_json(o: &Op) -> Value {
         Op::Max => json!(["max"]),
         Op::Clear => json!(["clear"]),
         Op::Extend(ks) => json!(["extend", ks]),
+        Op::ExtendFaulty(ks, j) => json!(["extend_iterator_panics_after", ks, j]),
         Op::Index(k) => json!(["index", k]),
         Op::IndexMutWrite(k) => json!(["index_mut_write", k]),
         Op::Debug => json!(["debug"]),
@@ -197,6 +201,8 @@ fn op_from(v: &Value) -> Result<Op, String> {
         "max" => Op::Max,
         "clear" => Op::Clear,
         "extend" => Op::Extend(v[1].as_array().ok_or("extend")?.iter().map(|x| x.as_u64().unwrap_or(0) as u32).collect()),
+        "extend_iterator_panics_after" => Op::ExtendFaulty(
+            v[1].as_array().ok_or("extend")?.iter().map(|x| x.as_u64().unwrap_or(0) as u32).collect(), v[2].as_u64().unwrap_or(0) as u32),
         "index" => Op::Index(k()?),
         "index_mut_write" => Op::IndexMutWrite(k()?),
         "debug" => Op::Debug,
@@ -280,7 +286,13 @@ fn gen_ops(r: &mut Rng, universe: u32, len: usize, set: bool) -> Vec<Op> {
             11 => {
                 // small batches, and now and then a large one with repeated keys (drawn with replacement)
                 let n = if r.chance(1, 3) { 12 + r.below(40) as usize } else { 1 + r.below(8) as usize };
-                Op::Extend((0..n).map(|_| key(r)).collect())
+                let ks: Vec<u32> = (0..n).map(|_| key(r)).collect();
+                if r.chance(1, 5) {
+                    let j = r.below(n as u64 + 1) as u32;
+                    Op::ExtendFaulty(ks, j)
+                } else {
+                    Op::Extend(ks)
+                }
             }
             12 => Op::IndexMutWrite(key(r)),
             13 | 14 => Op::Debug,
@@ -620,6 +632,32 @@ fn exec_map(cx: &mut Ctx, t: &mut Map, ops: &[Op], base: usize) -> Result<(), Fa
                 }
                 heap::with_policy(pol, || t.extend(items));
             }
+            Op::ExtendFaulty(ids, j) => {
+                let j = (*j as usize).min(ids.len());
+                let mut items = Vec::new();
+                for id in &ids[..j] {
+                    let val = cx.fresh_val();
+                    let k = K::new(*id);
+                    cx.kser.entry(cx.rank(*id)).or_insert(k.serial);
+                    items.push((k, V::new(val)));
+                    cx.model.insert(cx.rank(*id), (*id, val));
+                }
+                let mut src = items.into_iter();
+                let mut left = j;
+                let faulty = std::iter::from_fn(move || {
+                    if left == 0 {
+                        std::panic::panic_any("simulated: the caller's iterator failed");
+                    }
+                    left -= 1;
+                    src.next()
+                });
+                let r = heap::with_policy(pol, || catch_unwind(AssertUnwindSafe(|| t.extend(faulty))));
+                match r {
+                    Err(p) => heap::with_policy(pol, || drop(p)),
+                    Ok(()) => return fail("wrong_return", || format!("op #{} extend from a panicking iterator returned normally", opi)),
+                }
+                cx.cnt("fault_bulk_operation_cancelled_by_panicking_iterator");
+            }
             Op::Debug => {
                 if t.len() <= 48 {
                     let s = heap::off(|| format!("{:?}", t));
@@ -894,6 +932,31 @@ fn exec_set(cx: &mut Ctx, t: &mut Set, ops: &[Op], base: usize) -> Result<(), Fa
                 }
                 heap::with_policy(pol, || t.extend(items));
             }
+            Op::ExtendFaulty(ids, j) => {
+                let j = (*j as usize).min(ids.len());
+                let mut items = Vec::new();
+                for id in &ids[..j] {
+                    let k = K::new(*id);
+                    cx.kser.entry(cx.rank(*id)).or_insert(k.serial);
+                    items.push(k);
+                    cx.model.insert(cx.rank(*id), (*id, 0));
+                }
+                let mut src = items.into_iter();
+                let mut left = j;
+                let faulty = std::iter::from_fn(move || {
+                    if left == 0 {
+                        std::panic::panic_any("simulated: the caller's iterator failed");
+                    }
+                    left -= 1;
+                    src.next()
+                });
+                let r = heap::with_policy(pol, || catch_unwind(AssertUnwindSafe(|| t.extend(faulty))));
+                match r {
+                    Err(p) => heap::with_policy(pol, || drop(p)),
+                    Ok(()) => return fail("wrong_return", || format!("op #{} set.extend from a panicking iterator returned normally", opi)),
+                }
+                cx.cnt("fault_bulk_operation_cancelled_by_panicking_iterator");
+            }
             Op::Debug => {}
             Op::ReadPhase(lookups) => {
                 let t = &*t;
@@ -1141,7 +1204,7 @@ impl World for C17World {
         }
         for k in ["probe_insert_replace", "probe_remove_with_both_neighbours", "probe_remove_absent", "probe_lookup_absent",
             "probe_neighbour_of_absent_key", "probe_index_absent_panics", "probe_mixed_direction_consumption",
-            "probe_read_phase_with_2plus_held_refs", "fault_cancelled_consumption", "fault_migrated_segments"] {
+            "probe_read_phase_with_2plus_held_refs", "fault_cancelled_consumption", "fault_migrated_segments", "fault_bulk_operation_cancelled_by_panicking_iterator"] {
             st.add(k, cx.c.get(k).cloned().unwrap_or(0));
         }
         st.add("observed_items_not_released_after_consumption", cx.c.get("observed_items_not_released_after_consumption").cloned().unwrap_or(0));
@@ -1186,7 +1249,7 @@ impl World for C17World {
                 match o {
                     Op::Insert(k) | Op::Remove(k) | Op::Get(k) | Op::GetMutWrite(k) | Op::Contains(k) | Op::FindKey(k)
                     | Op::Next(k) | Op::Prev(k) | Op::Index(k) | Op::IndexMutWrite(k) => see(*k),
-                    Op::Extend(ks) => ks.iter().for_each(|k| see(*k)),
+                    Op::Extend(ks) | Op::ExtendFaulty(ks, _) => ks.iter().for_each(|k| see(*k)),
                     Op::ReadPhase(ls) => ls.iter().for_each(|(_, k)| see(*k)),
                     _ => {}
                 }
@@ -1202,7 +1265,7 @@ impl World for C17World {
                     match o {
                         Op::Insert(k) | Op::Remove(k) | Op::Get(k) | Op::GetMutWrite(k) | Op::Contains(k) | Op::FindKey(k)
                         | Op::Next(k) | Op::Prev(k) | Op::Index(k) | Op::IndexMutWrite(k) => *k = map(*k),
-                        Op::Extend(ks) => ks.iter_mut().for_each(|k| *k = map(*k)),
+                        Op::Extend(ks) | Op::ExtendFaulty(ks, _) => ks.iter_mut().for_each(|k| *k = map(*k)),
                         Op::ReadPhase(ls) => ls.iter_mut().for_each(|(_, k)| *k = map(*k)),
                         _ => {}
                     }
@@ -1241,6 +1304,15 @@ impl World for C17World {
                     Op::Extend(l)
                 }).collect(),
                 Op::Extend(ks) if ks.len() == 1 => vec![Op::Insert(ks[0])],
+                Op::ExtendFaulty(ks, j) => {
+                    let mut v = vec![Op::Extend(ks[..(*j as usize).min(ks.len())].to_vec())];
+                    if ks.len() > 1 {
+                        let mut l = ks.clone();
+                        l.pop();
+                        v.push(Op::ExtendFaulty(l, (*j).min(ks.len() as u32 - 1)));
+                    }
+                    v
+                }
                 Op::Consume { pattern, take } if *take > 0 => vec![Op::Consume { pattern: pattern.clone(), take: take - 1 }],
                 _ => vec![],
             };
